@@ -3,6 +3,7 @@ import CodeLimit.Lemmas.ProgTreeMarksScan
 import CodeLimit.Lemmas.ProgTreeMarksToggle
 import CodeLimit.Lemmas.ProgTreeMarksShift
 import CodeLimit.Lemmas.ProgTreeMarksSharp
+import CodeLimit.Lemmas.ProgTreeMarksNames
 /-!
 # C01 + C04 + C17 on program trees: forests WITH comments and suppression markers
 
@@ -31,25 +32,40 @@ Results, for EVERY forest (any number, order, nesting of items; any subset of fu
   (`p.effective.noAdj`, implied by `p.stripComments.noAdj`: `effective_noAdj_of_strip`);
 * M2 `scan_of_rendered_marked_canon_tree` (`…_java_…`, `…_js_…`, `…_ts_…`) - unconditional for the
   canonical fragments;
-* M3 (C17) `reported_functions` - exactly the functions named on unmarked lines are reported;
+* M3 (C17) `reported_functions`, `function_omitted_iff` - ON THE OUTPUT of `scan_file`: exactly the
+  functions named on unmarked lines are reported (for C: the visible ones, `expectedNames`);
   `toggle_marker`, `toggle_independent`, `toggle_marker_canon` - adding / removing the marker of
   independent functions removes / restores exactly their entries (exact condition: not nested, for
-  languages with nested functions; not enclosing, for C); the general case is M1 itself,
+  languages with nested functions; not enclosing, for C); `toggle_marker_moved` - the same for a
+  marker ANYWHERE on the line (in front of the name it shifts columns: entries correspond up to
+  columns); the general case is M1 itself,
   illustrated by `Ex.nested_marker_changes_parent`, `Ex.enclosing_marker_reveals_nested`;
 * M4 (C04) `comments_in_place_invisible` - comments that do not move the code change nothing;
   `comments_blank_lines_invisible`, `comments_blank_lines_invisible_canon` - inserting or
   deleting comments (not markers on a name line) and blank lines anywhere leaves names, order and
   lengths unchanged and maps the reported lines by the line shift;
+* M5 `Fragment`, `…_fragment`, `…_canon_java/_js/_ts` - M3 and M4 for EVERY canonical fragment,
+  without hypothesis about the matcher (C, C++, C#, Java, JavaScript, TypeScript; with assigned arrow
+  functions and at TEXT level in `Props/C01marktext.lean`);
 * non-vacuity: `Ex.marksTree` (comments in all places, two marked functions) and four variants; all
   hypotheses by `decide`, conclusions compared with the kernel evaluation of `scanFile`.
 
-`_partial`: M1 needs `noAdj` of the comment-free forest (no brace group directly after a function),
-as `C01tree.scan_of_tree_partial` does; without it the statement is false
-(`scan_of_marked_tree_full_false`, the witness of `C01tree`).  Dissolving a marked function creates a
-brace group directly after header or gap TOKENS, never directly after a function, so `noAdj` and the
-layout clause `no_adjacent` survive (`dissolve_wellformed`).  For C (no nested functions) the
-formula `markedReportFlat` is right, too: marking an enclosing function reveals the functions nested
-in it (`C17.reported_flat_full_fails`), and that is exactly what dissolving the enclosing node does.
+**Naming.**  `_partial` marks M1: it is CONDITIONAL on `Discovers L …` (header extraction finds the
+function nodes of the comment-free forest - a statement about an intermediate result of the
+analysis, `Spec/ProgTreeMarks.lean`).  So are the corollaries `toggle_marker`, `toggle_independent`,
+`comments_in_place_invisible`, `comments_blank_lines_invisible`, `reported_functions`.  The
+hypothesis is discharged in M2 and M5 for every canonical fragment (`Fragment`): `…_canon`,
+`…_canon_java`, `…_canon_js`, `…_canon_ts`, `…_fragment`, and `…_canon_js_arrow`, `…_canon_ts_arrow`
+in `Props/C01marktext.lean`.
+
+**The restriction `noAdj`.**  M1 needs `noAdj` of the comment-free forest (no brace group directly
+after a function), as `C01tree.scan_of_tree_partial` does (Appendix A of the design: part of
+"canonical"); without it the statement is false (`scan_of_marked_tree_full_false`, the witness of
+`C01tree`).  Dissolving a marked function creates a brace group directly after header or gap
+TOKENS, never directly after a function, so `noAdj` and the layout clause `no_adjacent` survive
+(`dissolve_wellformed`).  For C (no nested functions) the formula `markedReportFlat` is right, too:
+marking an enclosing function reveals the functions nested in it
+(`C17.reported_flat_full_fails`), and that is exactly what dissolving the enclosing node does.
 -/
 namespace CL.C01marks
 open CL.C01syn CL.C01tree CL.C01full CL.Marks
@@ -93,6 +109,25 @@ theorem marked_line_iff (p : Prog Tok) (l : Nat) :
   rw [← List.contains_iff_mem, ← marked_iff_markedLines]
   rfl
 
+/-- **what a marked line is, without reference to the model's text test**: line `l` is marked iff it
+carries a comment token whose text is: an optional comment leader (`#`, `;`, `//` or `/*`), then -
+only if there is a leader - any number of blanks, then the four letters `nocl` in any mix of upper
+and lower case, then anything.  (`markedLines` / `Tok.isMarker` are defined with the model function
+`isNoclText`; this is `marked_line_iff` composed with the independent characterisation
+`C17.marker_recognition` = `isNoclText_iff`.) -/
+theorem marked_line_iff_text (p : Prog Tok) (l : Nat) :
+    l ∈ markedLines p ↔ ∃ t ∈ p.flat, t.isComment = true ∧ t.line = l ∧
+      ∃ leader ws mark rest, t.val = leader ++ ws ++ mark ++ rest ∧
+        leader ∈ [[], [35], [59], [47, 47], [47, 42]] ∧
+        (leader = [] → ws = []) ∧ ws.all isSpaceChar = true ∧
+        mark.map lowerAscii = [110, 111, 99, 108] := by
+  rw [marked_line_iff]
+  constructor
+  · rintro ⟨t, ht, h1, h2, h3⟩
+    exact ⟨t, ht, h1, h3, (isNoclText_iff t.val).1 h2⟩
+  · rintro ⟨t, ht, h1, h3, h2⟩
+    exact ⟨t, ht, h1, (isNoclText_iff t.val).2 h2, h3⟩
+
 /-- the conditions on the comment-free located forest of a file do not depend on the locations:
 they are conditions on the comment-free forest of tokens without locations -/
 theorem conditions_location_independent (p : Prog PTok) :
@@ -105,9 +140,22 @@ theorem conditions_location_independent (p : Prog PTok) :
   ⟨wfCore_strip_locate p _, noAdj_strip_locate p _, canon_strip_locate p _,
    canonJava_strip_locate p _, canonJs_strip_locate p _, canonTs_strip_locate p _⟩
 
+/-- **The report with comments and markers extends the report without**: for a forest of CODE tokens
+(no comment, no whitespace token; structurally well-formed) `markedReport` / `markedReportFlat` are
+`treeReport` / `treeReportFlat` of the located forest, so M1 / M2 specialise to the theorems of
+`Props/C01tree.lean` / `Props/C01full.lean`. -/
+theorem markedReport_of_allCode {p : Prog PTok} (hw : p.bare.wfCore = true)
+    (hc : p.bare.allCode = true) :
+    markedReport p = treeReport p.located ∧ markedReportFlat p = treeReportFlat p.located := by
+  have hw' : p.located.wfCore = true := by rw [Prog.located, wfCore_locate]; exact hw
+  have hc' : p.located.allCode = true := by rw [Prog.located, allCode_locate]; exact hc
+  unfold markedReport markedReportFlat
+  rw [effective_of_allCode hw' hc']
+  exact ⟨rfl, rfl⟩
+
 /-! ## M1: `scan_file` on forests with comments and markers -/
 
-/-- **M1 (partial: needs `noAdj`).**  Let `p` be a forest of located tokens, comments, whitespace and
+/-- **M1 (`_partial`: conditional on `Discovers`; needs `noAdj`).**  Let `p` be a forest of located tokens, comments, whitespace and
 marker comments anywhere, token locations strictly increasing.  Let its comment-free forest be
 structurally well-formed (`wfCore`) with no function directly followed by a brace group (`noAdj`),
 and let the header extraction of a brace-block language `L` find the headers of the function nodes
@@ -128,7 +176,7 @@ theorem scan_of_marked_tree_partial {L : Language} {p : Prog Tok} (hpy : L.pytho
   obtain ⟨hs, hh, hperm⟩ := hd
   exact scan_marked_prog hpy hw ha hpos hh hperm
 
-/-- **M1 for rendered forests (partial: needs `noAdj`).**  Let `p` be ANY forest of tokens without
+/-- **M1 for rendered forests (`_partial`: conditional on `Discovers`; needs `noAdj`).**  Let `p` be ANY forest of tokens without
 locations (line breaks and blank columns arbitrary; comments anywhere).  If its comment-free forest
 is structurally well-formed and has no function directly followed by a brace group (two decidable
 conditions that do not mention locations) and header extraction finds the function nodes of the
@@ -261,17 +309,72 @@ theorem langReportNamed_snd (L : Language) (q : Prog Tok) :
   · exact treeReportNamed_snd q
   · exact treeReportFlatNamed_snd q
 
-/-- **C17, "omitted exactly when".**  In a language with nested functions the reported functions
-are, in source order, exactly the function nodes of the comment-free forest whose NAME token stands
-on a line without marker comment (`marked_line_iff`); each entry of the report belongs to the
-function node whose name token it is paired with. -/
-theorem reported_functions {p : Prog Tok} (hw : p.stripComments.wfCore = true) :
+/-- a fact about the SPECIFICATION vocabulary only (no `scan_file`): the function nodes of the
+effective forest are, in source order, exactly the function nodes of the comment-free forest whose
+NAME token stands on a line without marker comment (`marked_line_iff`); and the names paired with
+the entries of `treeReportNamed` are the name tokens of those nodes.  (This is what dissolving
+does; the statement about the OUTPUT is `reported_functions`.) -/
+theorem effective_function_names {p : Prog Tok} (hw : p.stripComments.wfCore = true) :
     (treeReportNamed p.effective).map (·.1)
       = p.stripComments.nameToks.filter (fun t => !(markedLines p).contains t.line) ∧
     (treeReportNamed p.effective).map (·.2) = treeReport p.effective :=
   ⟨by rw [treeReportNamed_fst]; exact nameToks_dissolve _ _ hw, treeReportNamed_snd _⟩
 
-/-- **C17, toggling a marker: the exact condition per kind of language.**  `p` and `p'` are two
+/-- the names paired with the report of `L` are the expected names: for a language with nested
+reporting the unmarked function nodes, otherwise the visible ones (specification level) -/
+theorem langReportNamed_fst (L : Language) {p : Prog Tok} (hw : p.stripComments.wfCore = true) :
+    (langReportNamed L p.effective).map (·.1) = expectedNames L p := by
+  unfold langReportNamed expectedNames
+  split
+  · rw [treeReportNamed_fst]; exact nameToks_dissolve _ _ hw
+  · rw [treeReportFlatNamed_fst]; exact outerNameToks_dissolve _ _ hw
+
+/-- every entry carries the text of the name token it is paired with -/
+theorem langReportNamed_name (L : Language) (q : Prog Tok) :
+    ∀ x ∈ langReportNamed L q, x.2.name = x.1.val := by
+  unfold langReportNamed
+  split
+  · exact treeReportNamed_name q
+  · exact treeReportFlatNamed_name q
+
+/-- **C17, "omitted exactly when", on the OUTPUT of `scan_file`.**  Let `p` be a located forest
+with comments and markers whose comment-free forest is structurally well-formed, with no brace
+group directly after a function that stays, token locations increasing, and let header
+extraction of the brace-block language `L` find the function nodes of the comment-free forest
+(`Discovers`; discharged for the canonical fragments: `reported_functions_canon`,
+`reported_functions_fragment`).  Then `scan_file` succeeds, and its result is a list of entries
+that correspond one to one, in order, to the EXPECTED function nodes (`expectedNames`):
+
+* if `L` reports nested functions: exactly the function nodes of the comment-free forest whose
+  name token stands on a line WITHOUT a marker comment - a function is omitted exactly when a
+  marker comment sits on the line of its name (`function_omitted_iff`);
+* if it does not (C): of these, the ones not inside another unmarked function node; a marked
+  enclosing function does not hide the functions nested in it;
+
+and every entry carries the text of the name token of its function node (span and length: M1). -/
+theorem reported_functions {L : Language} {p : Prog Tok} (hpy : L.python = false)
+    (hw : p.stripComments.wfCore = true) (ha : p.effective.noAdj = true)
+    (hpos : PosSorted p.flat) (hd : Discovers L p.stripComments) :
+    scanFile L p.flat = .ok ((langReportNamed L p.effective).map (·.2)) ∧
+    (langReportNamed L p.effective).map (·.1) = expectedNames L p ∧
+    ∀ x ∈ langReportNamed L p.effective, x.2.name = x.1.val :=
+  ⟨by rw [scan_of_marked_tree_sharp hpy hw ha hpos hd, langReportNamed_snd],
+   langReportNamed_fst L hw, langReportNamed_name L _⟩
+
+/-- **"omitted exactly when", per function** (languages with nested reporting): a function node of
+the comment-free forest has an entry in the report iff no comment token that is a suppression
+marker stands on the line of its name token. -/
+theorem function_omitted_iff {L : Language} {p : Prog Tok} (hn : L.nested = true)
+    (hw : p.stripComments.wfCore = true) :
+    ∀ t ∈ p.stripComments.nameToks,
+      (t ∈ (langReportNamed L p.effective).map (·.1) ↔
+        ¬ ∃ c ∈ p.flat, c.isComment = true ∧ isNoclText c.val = true ∧ c.line = t.line) := by
+  intro t ht
+  rw [langReportNamed_fst L hw, expectedNames, if_pos hn, List.mem_filter, ← marked_line_iff]
+  simp [ht]
+
+/-- **C17, toggling a marker: the exact condition per kind of language** (conditional on
+`Discovers`; without it: `toggle_marker_fragment`, `toggle_marker_canon…`).  `p` and `p'` are two
 located forests with the same comment-free forest (`p'` = `p` with a marker comment added on line
 `l`, e.g. as a trailing comment: the code tokens stay where they are); the marked lines of `p'` are
 those of `p` and `l`.  Condition `toggleOK`, among the functions reported for `p`:
@@ -320,6 +423,60 @@ theorem toggle_marker {L : Language} {p p' : Prog Tok} {l : Nat} (hpy : L.python
   · rename_i hn
     rw [if_neg hn] at hind
     rw [← toggle_flat_named l _ hwe hind, treeReportFlatNamed_snd]
+
+/-- **C17 toggle, the marker anywhere on the line** (also IN FRONT of the name, where it shifts
+the columns of the code behind it; `toggle_marker` demands identical locations and so covers a
+trailing marker only).  `p'` has the same comment-free forest as `p` up to COLUMNS (same shape,
+kinds, texts and lines: `movedTo id`) and one more marked line `l`; the functions named on line `l`
+satisfy `toggleOK`.  Then `scan_file` succeeds on both, and the report for `p'` corresponds entry by
+entry to the report for `p` without the entries of the functions named on line `l`: same names,
+same lengths, same start and end lines (the columns are those of the moved tokens).  Conditional
+on `Discovers` for both forests. -/
+theorem toggle_marker_moved {L : Language} {p p' : Prog Tok} {l : Nat} (hpy : L.python = false)
+    (hw : p.stripComments.wfCore = true) (ha : p.effective.noAdj = true)
+    (hpos : PosSorted p.flat) (hpos' : PosSorted p'.flat) (hd : Discovers L p.stripComments)
+    (hd' : Discovers L p'.stripComments)
+    (hmove : p.stripComments.movedTo id p'.stripComments = true)
+    (hmark : ∀ x, x ∈ markedLines p' ↔ x ∈ markedLines p ∨ x = l)
+    (hind : toggleOK L l p.effective = true) :
+    scanFile L p.flat = .ok ((langReportNamed L p.effective).map (·.2)) ∧
+    ∃ r', scanFile L p'.flat = .ok r' ∧
+      Forall2 (Measurement.movedBy id)
+        (((langReportNamed L p.effective).filter (fun x => decide (x.1.line ≠ l))).map (·.2)) r' := by
+  have hwe : p.effective.wfCore = true := wfCore_dissolve _ _ hw
+  have hsim := sim_of_movedTo hmove
+  have hw' : p'.stripComments.wfCore = true := (wfCore_sim hsim).symm.trans hw
+  -- the effective forest of `p'` is the one of `p` with line `l` dissolved, up to columns
+  have he : (p.effective.dissolve [l]).movedTo id p'.effective = true := by
+    unfold Prog.effective
+    rw [dissolve_dissolve _ _ _ hw]
+    apply movedTo_dissolve hmove hw
+    intro t _
+    rw [Bool.eq_iff_iff]
+    simp only [id, List.contains_iff_mem, List.mem_append, List.mem_singleton]
+    rw [hmark t.line]
+    exact or_comm
+  have hwd : (p.effective.dissolve [l]).wfCore = true := wfCore_dissolve _ _ hwe
+  have had : (p.effective.dissolve [l]).noAdj = true :=
+    ((Prog.wf_iff _).mp (wf_dissolve [l] _ (Prog.wf_of hwe ha))).2
+  have ha' : p'.effective.noAdj = true := (noAdj_sim (sim_of_movedTo he)).symm.trans had
+  have h1 := scan_of_marked_tree_sharp hpy hw ha hpos hd
+  have h2 := scan_of_marked_tree_sharp hpy hw' ha' hpos' hd'
+  refine ⟨by rw [h1, langReportNamed_snd], _, h2, ?_⟩
+  have hφ : MonoOn id ((p.effective.dissolve [l]).flat.map (·.line)) := fun a _ b _ h => h
+  have hS : ∀ t ∈ (p.effective.dissolve [l]).flat,
+      t.line ∈ (p.effective.dissolve [l]).flat.map (·.line) := fun t ht => List.mem_map_of_mem ht
+  unfold toggleOK at hind
+  unfold langReportNamed
+  split
+  · rename_i hn
+    rw [if_pos hn] at hind
+    rw [← toggle_named l _ hwe hind, treeReportNamed_snd]
+    exact treeReport_movedTo hφ he hwd hS
+  · rename_i hn
+    rw [if_neg hn] at hind
+    rw [← toggle_flat_named l _ hwe hind, treeReportFlatNamed_snd]
+    exact treeReportFlat_movedTo hφ he hwd hS
 
 /-- independent functions satisfy the condition of `toggle_marker` for every language -/
 theorem toggleOK_of_independent (L : Language) {l : Nat} {q : Prog Tok}
@@ -383,7 +540,8 @@ theorem comments_in_place_invisible {L : Language} {p p' : Prog Tok} (hpy : L.py
     (by rw [he]; exact ha) hpos' (by rw [hcode]; exact hd)
   rw [h1, h2, he]
 
-/-- **C04 on trees.**  `p` and `p'` are two located forests whose comment-free forests have the
+/-- **C04 on trees** (conditional on `Discovers` for both files; without it:
+`comments_blank_lines_invisible_fragment`, `…_canon…`).  `p` and `p'` are two located forests whose comment-free forests have the
 same shape, kinds and texts, the token on line `l` of `p` standing on line `φ l` of `p'`
 (`movedTo`; columns arbitrary), where `φ` is strictly increasing on the lines of `p` that carry
 code: this is what inserting / deleting comment leaves, trailing comments, whitespace tokens and
@@ -452,6 +610,303 @@ theorem comments_blank_lines_invisible_canon {L : Language} (hL : L ∈ cFamily)
   cases e1'
   cases e2'
   exact hrel
+
+/-! ## M5: the corollaries of M3 / M4 for EVERY canonical fragment - no hypothesis about the matcher
+
+`toggle_marker`, `comments_in_place_invisible`, `comments_blank_lines_invisible` and
+`reported_functions` assume `Discovers L …` (header extraction finds the function nodes).  A
+`Fragment L` packages what discharges it: a decidable, location-independent predicate on
+comment-free forests on which discovery is PROVED.  The instances are the canonical fragments:
+`fragC` (C, C++, C#: `Canon`), `fragJava` (`CanonJava`), `fragJs` (`CanonJs`), `fragTs` (`CanonTs`)
+here, `C01marktext.fragJsArrow` / `fragTsArrow` (`CanonJsArrow` / `CanonTsArrow`) in
+`Props/C01marktext.lean`.  The generic theorems `…_fragment` are followed by their instances in the
+words of the single languages. -/
+
+/-- **a canonical fragment of the brace-block language `L`**: a predicate `holds` on comment-free
+forests that does not depend on token locations (`sim`) and on which - together with `wfCore`
+and `noAdj` - header extraction of `L` finds exactly the function nodes (`discovers`, a THEOREM for
+every instance, not an assumption) -/
+structure Fragment (L : Language) where
+  /-- the decidable predicate on comment-free forests -/
+  holds : Prog Tok → Bool
+  /-- `L` is a brace-block language -/
+  brace : L.python = false
+  /-- the predicate looks at kinds and texts of tokens only, not at their locations -/
+  sim : ∀ {p q : Prog Tok}, Prog.Sim p q → holds p = holds q
+  /-- discovery is proved on the fragment -/
+  discovers : ∀ {q : Prog Tok}, holds q = true → q.wfCore = true → q.noAdj = true → Discovers L q
+
+/-- C, C++, C#: `Prog.Canon` -/
+def fragC {L : Language} (hL : L ∈ cFamily) : Fragment L :=
+  ⟨Prog.Canon, cFamily_brace L hL, canon_sim, discovers_of_canon hL⟩
+
+/-- Java: `Prog.CanonJava` -/
+def fragJava : Fragment Gen.java := ⟨Prog.CanonJava, rfl, canonJava_sim, discovers_of_canon_java⟩
+
+/-- JavaScript without assigned arrow functions: `Prog.CanonJs` -/
+def fragJs : Fragment Gen.javascript := ⟨Prog.CanonJs, rfl, canonJs_sim, discovers_of_canon_js⟩
+
+/-- TypeScript without assigned arrow functions: `Prog.CanonTs` -/
+def fragTs : Fragment Gen.typescript := ⟨Prog.CanonTs, rfl, canonTs_sim, discovers_of_canon_ts⟩
+
+theorem fragC_holds {L : Language} (hL : L ∈ cFamily) : (fragC hL).holds = Prog.Canon := rfl
+theorem fragJava_holds : fragJava.holds = Prog.CanonJava := rfl
+theorem fragJs_holds : fragJs.holds = Prog.CanonJs := rfl
+theorem fragTs_holds : fragTs.holds = Prog.CanonTs := rfl
+
+/-- the fragment condition on the comment-free located forest is the condition on the comment-free
+forest of tokens without locations -/
+theorem Fragment.strip_locate {L : Language} (F : Fragment L) (p : Prog PTok) (s : Nat × Nat) :
+    F.holds (locate s p).stripComments = F.holds p.bare.stripComments :=
+  F.sim (sim_strip_locate p s)
+
+/-- discovery on the comment-free located forest of a rendered forest of the fragment -/
+theorem Fragment.discovers_rendered {L : Language} (F : Fragment L) {p : Prog PTok}
+    (hc : F.holds p.bare.stripComments = true) (hw : p.bare.stripComments.wfCore = true)
+    (ha : p.bare.stripComments.noAdj = true) : Discovers L p.located.stripComments :=
+  F.discovers ((F.strip_locate p _).trans hc) ((wfCore_strip_locate p _).trans hw)
+    ((noAdj_strip_locate p _).trans ha)
+
+/-- **M2 for every fragment.**  For ANY forest `p` of tokens without locations, comments and markers
+anywhere, whose comment-free forest lies in the fragment, is structurally well-formed and has no
+function directly followed by a brace group: `scan_file` on the rendering returns `markedReport p`
+(`markedReportFlat p` for a language without nested reporting). -/
+theorem scan_of_rendered_marked_fragment {L : Language} (F : Fragment L) {p : Prog PTok}
+    (hc : F.holds p.bare.stripComments = true) (hw : p.bare.stripComments.wfCore = true)
+    (ha : p.bare.stripComments.noAdj = true) :
+    scanFile L (render p)
+      = .ok (if L.nested = true then markedReport p else markedReportFlat p) :=
+  scan_of_rendered_marked_tree_partial F.brace hw ha (F.discovers_rendered hc hw ha)
+
+/-- **C17 "omitted exactly when" for every fragment, on the output** (`reported_functions` without
+the discovery hypothesis): `scan_file` on the rendering succeeds; its entries correspond one to
+one, in order, to the expected function nodes (`expectedNames`: named on a line without marker; for
+C additionally not inside another unmarked function node) and carry their names. -/
+theorem reported_functions_fragment {L : Language} (F : Fragment L) {p : Prog PTok}
+    (hc : F.holds p.bare.stripComments = true) (hw : p.bare.stripComments.wfCore = true)
+    (ha : p.bare.stripComments.noAdj = true) :
+    scanFile L (render p) = .ok ((langReportNamed L p.located.effective).map (·.2)) ∧
+    (langReportNamed L p.located.effective).map (·.1) = expectedNames L p.located ∧
+    ∀ x ∈ langReportNamed L p.located.effective, x.2.name = x.1.val := by
+  have hw' := (wfCore_strip_locate p (1, 0)).trans hw
+  have ha' := (noAdj_strip_locate p (1, 0)).trans ha
+  exact reported_functions F.brace hw' (effective_noAdj_of_strip hw' ha') (render_pos_sorted p)
+    (F.discovers_rendered hc hw ha)
+
+/-- **C17 toggle for every fragment** (`toggle_marker` without the discovery hypothesis; conditions
+on `p.bare.stripComments`).  `p'` has the same comment-free located forest as `p` and one more
+marked line `l` (a marker comment added where it does not move the code, e.g. trailing); the
+functions named on line `l` satisfy `toggleOK` (not nested, for languages with nested reporting;
+outermost ones contain no function, for C).  Then the report for `p'` is the report for `p` without
+the entries of the functions named on line `l`; everything else is unchanged. -/
+theorem toggle_marker_fragment {L : Language} (F : Fragment L) {p p' : Prog PTok} {l : Nat}
+    (hc : F.holds p.bare.stripComments = true) (hw : p.bare.stripComments.wfCore = true)
+    (ha : p.bare.stripComments.noAdj = true)
+    (hcode : p'.located.stripComments = p.located.stripComments)
+    (hmark : ∀ x, x ∈ markedLines p'.located ↔ x ∈ markedLines p.located ∨ x = l)
+    (hind : toggleOK L l p.located.effective = true) :
+    scanFile L (render p) = .ok ((langReportNamed L p.located.effective).map (·.2)) ∧
+    scanFile L (render p') = .ok (((langReportNamed L p.located.effective).filter
+      (fun x => decide (x.1.line ≠ l))).map (·.2)) := by
+  have hw' := (wfCore_strip_locate p (1, 0)).trans hw
+  have ha' := (noAdj_strip_locate p (1, 0)).trans ha
+  exact toggle_marker F.brace hw' (effective_noAdj_of_strip hw' ha')
+    (render_pos_sorted p) (render_pos_sorted p') (F.discovers_rendered hc hw ha) hcode hmark hind
+
+/-- **C17 toggle for every fragment, the marker anywhere on the line** (`toggle_marker_moved` without
+the discovery hypotheses): `p'` has the same comment-free forest as `p` up to columns and one more
+marked line `l`. -/
+theorem toggle_marker_moved_fragment {L : Language} (F : Fragment L) {p p' : Prog PTok} {l : Nat}
+    (hc : F.holds p.bare.stripComments = true) (hw : p.bare.stripComments.wfCore = true)
+    (ha : p.bare.stripComments.noAdj = true)
+    (hmove : p.located.stripComments.movedTo id p'.located.stripComments = true)
+    (hmark : ∀ x, x ∈ markedLines p'.located ↔ x ∈ markedLines p.located ∨ x = l)
+    (hind : toggleOK L l p.located.effective = true) :
+    scanFile L (render p) = .ok ((langReportNamed L p.located.effective).map (·.2)) ∧
+    ∃ r', scanFile L (render p') = .ok r' ∧
+      Forall2 (Measurement.movedBy id)
+        (((langReportNamed L p.located.effective).filter
+          (fun x => decide (x.1.line ≠ l))).map (·.2)) r' := by
+  have hw1 := (wfCore_strip_locate p (1, 0)).trans hw
+  have ha1 := (noAdj_strip_locate p (1, 0)).trans ha
+  have hc1 := (F.strip_locate p (1, 0)).trans hc
+  have hsim := sim_of_movedTo hmove
+  have hw2 : p'.located.stripComments.wfCore = true := (wfCore_sim hsim).symm.trans hw1
+  have ha2 : p'.located.stripComments.noAdj = true := (noAdj_sim hsim).symm.trans ha1
+  have hc2 : F.holds p'.located.stripComments = true := (F.sim hsim).symm.trans hc1
+  exact toggle_marker_moved F.brace hw1 (effective_noAdj_of_strip hw1 ha1) (render_pos_sorted p)
+    (render_pos_sorted p') (F.discovers hc1 hw1 ha1) (F.discovers hc2 hw2 ha2) hmove hmark hind
+
+/-- **C04 for every fragment, comments that do not move the code** -/
+theorem comments_in_place_invisible_fragment {L : Language} (F : Fragment L) {p p' : Prog PTok}
+    (hc : F.holds p.bare.stripComments = true) (hw : p.bare.stripComments.wfCore = true)
+    (ha : p.bare.stripComments.noAdj = true)
+    (hcode : p'.located.stripComments = p.located.stripComments)
+    (hmark : ∀ t ∈ p.located.stripComments.nameToks,
+      (markedLines p'.located).contains t.line = (markedLines p.located).contains t.line) :
+    scanFile L (render p') = scanFile L (render p) := by
+  have hw' := (wfCore_strip_locate p (1, 0)).trans hw
+  have ha' := (noAdj_strip_locate p (1, 0)).trans ha
+  exact comments_in_place_invisible F.brace hw' (effective_noAdj_of_strip hw' ha')
+    (render_pos_sorted p) (render_pos_sorted p') (F.discovers_rendered hc hw ha) hcode hmark
+
+/-- **C04 for every fragment** (`comments_blank_lines_invisible` without the discovery hypotheses):
+the conditions are stated for `p` only; they carry over to `p'` (same shape, kinds and texts).
+Inserting or deleting comments (not markers on a name line), whitespace tokens and blank lines
+anywhere leaves the reported functions, their names, order and lengths unchanged and maps the
+reported lines by the line shift `φ`. -/
+theorem comments_blank_lines_invisible_fragment {L : Language} (F : Fragment L) {p p' : Prog PTok}
+    {φ : Nat → Nat} (hc : F.holds p.bare.stripComments = true)
+    (hw : p.bare.stripComments.wfCore = true) (ha : p.bare.stripComments.noAdj = true)
+    (hmove : p.located.stripComments.movedTo φ p'.located.stripComments = true)
+    (hφ : MonoOn φ (p.located.stripComments.flat.map (·.line)))
+    (hmark : ∀ t ∈ p.located.stripComments.nameToks,
+      (markedLines p'.located).contains (φ t.line) = (markedLines p.located).contains t.line) :
+    scanFile L (render p) = .ok (if L.nested = true then markedReport p else markedReportFlat p) ∧
+    scanFile L (render p')
+      = .ok (if L.nested = true then markedReport p' else markedReportFlat p') ∧
+    Forall2 (Measurement.movedBy φ)
+      (if L.nested = true then markedReport p else markedReportFlat p)
+      (if L.nested = true then markedReport p' else markedReportFlat p') := by
+  have hw1 := (wfCore_strip_locate p (1, 0)).trans hw
+  have ha1 := (noAdj_strip_locate p (1, 0)).trans ha
+  have hc1 := (F.strip_locate p (1, 0)).trans hc
+  have hsim := sim_of_movedTo hmove
+  have hw2 : p'.located.stripComments.wfCore = true := (wfCore_sim hsim).symm.trans hw1
+  have ha2 : p'.located.stripComments.noAdj = true := (noAdj_sim hsim).symm.trans ha1
+  have hc2 : F.holds p'.located.stripComments = true := (F.sim hsim).symm.trans hc1
+  have hd1 := F.discovers hc1 hw1 ha1
+  have hd2 := F.discovers hc2 hw2 ha2
+  have h1 := scan_of_marked_tree_partial F.brace hw1 ha1 (render_pos_sorted p) hd1
+  have h2 := scan_of_marked_tree_partial F.brace hw2 ha2 (render_pos_sorted p') hd2
+  obtain ⟨r, r', e1, e2, hrel⟩ := comments_blank_lines_invisible F.brace hw1
+    (effective_noAdj_of_strip hw1 ha1) (render_pos_sorted p) (render_pos_sorted p') hd1 hd2 hmove hφ hmark
+  refine ⟨h1, h2, ?_⟩
+  have e1' := e1.symm.trans h1
+  have e2' := e2.symm.trans h2
+  cases e1'
+  cases e2'
+  exact hrel
+
+/-! ### the instances, language by language -/
+
+/-- C17 "omitted exactly when" on the output, C / C++ / C# -/
+theorem reported_functions_canon {L : Language} (hL : L ∈ cFamily) {p : Prog PTok}
+    (hc : p.bare.stripComments.Canon = true) (hw : p.bare.stripComments.wfCore = true)
+    (ha : p.bare.stripComments.noAdj = true) :
+    scanFile L (render p) = .ok ((langReportNamed L p.located.effective).map (·.2)) ∧
+    (langReportNamed L p.located.effective).map (·.1) = expectedNames L p.located ∧
+    ∀ x ∈ langReportNamed L p.located.effective, x.2.name = x.1.val :=
+  reported_functions_fragment (fragC hL) hc hw ha
+
+/-- C17 "omitted exactly when" on the output, Java: exactly the function nodes named on a line
+without marker comment are reported -/
+theorem reported_functions_canon_java {p : Prog PTok}
+    (hc : p.bare.stripComments.CanonJava = true) (hw : p.bare.stripComments.wfCore = true)
+    (ha : p.bare.stripComments.noAdj = true) :
+    scanFile Gen.java (render p) = .ok ((treeReportNamed p.located.effective).map (·.2)) ∧
+    (treeReportNamed p.located.effective).map (·.1)
+      = p.located.stripComments.nameToks.filter
+          (fun t => !(markedLines p.located).contains t.line) ∧
+    ∀ x ∈ treeReportNamed p.located.effective, x.2.name = x.1.val :=
+  reported_functions_fragment fragJava hc hw ha
+
+/-- ... JavaScript (no assigned arrow functions) -/
+theorem reported_functions_canon_js {p : Prog PTok}
+    (hc : p.bare.stripComments.CanonJs = true) (hw : p.bare.stripComments.wfCore = true)
+    (ha : p.bare.stripComments.noAdj = true) :
+    scanFile Gen.javascript (render p) = .ok ((treeReportNamed p.located.effective).map (·.2)) ∧
+    (treeReportNamed p.located.effective).map (·.1)
+      = p.located.stripComments.nameToks.filter
+          (fun t => !(markedLines p.located).contains t.line) ∧
+    ∀ x ∈ treeReportNamed p.located.effective, x.2.name = x.1.val :=
+  reported_functions_fragment fragJs hc hw ha
+
+/-- ... TypeScript (no assigned arrow functions) -/
+theorem reported_functions_canon_ts {p : Prog PTok}
+    (hc : p.bare.stripComments.CanonTs = true) (hw : p.bare.stripComments.wfCore = true)
+    (ha : p.bare.stripComments.noAdj = true) :
+    scanFile Gen.typescript (render p) = .ok ((treeReportNamed p.located.effective).map (·.2)) ∧
+    (treeReportNamed p.located.effective).map (·.1)
+      = p.located.stripComments.nameToks.filter
+          (fun t => !(markedLines p.located).contains t.line) ∧
+    ∀ x ∈ treeReportNamed p.located.effective, x.2.name = x.1.val :=
+  reported_functions_fragment fragTs hc hw ha
+
+/-- **C17 toggle, Java** (no hypothesis about the matcher) -/
+theorem toggle_marker_canon_java {p p' : Prog PTok} {l : Nat}
+    (hc : p.bare.stripComments.CanonJava = true) (hw : p.bare.stripComments.wfCore = true)
+    (ha : p.bare.stripComments.noAdj = true)
+    (hcode : p'.located.stripComments = p.located.stripComments)
+    (hmark : ∀ x, x ∈ markedLines p'.located ↔ x ∈ markedLines p.located ∨ x = l)
+    (hind : p.located.effective.notNestedOn l = true) :
+    scanFile Gen.java (render p) = .ok ((treeReportNamed p.located.effective).map (·.2)) ∧
+    scanFile Gen.java (render p') = .ok (((treeReportNamed p.located.effective).filter
+      (fun x => decide (x.1.line ≠ l))).map (·.2)) :=
+  toggle_marker_fragment fragJava hc hw ha hcode hmark hind
+
+/-- **C17 toggle, JavaScript** (no assigned arrow functions) -/
+theorem toggle_marker_canon_js {p p' : Prog PTok} {l : Nat}
+    (hc : p.bare.stripComments.CanonJs = true) (hw : p.bare.stripComments.wfCore = true)
+    (ha : p.bare.stripComments.noAdj = true)
+    (hcode : p'.located.stripComments = p.located.stripComments)
+    (hmark : ∀ x, x ∈ markedLines p'.located ↔ x ∈ markedLines p.located ∨ x = l)
+    (hind : p.located.effective.notNestedOn l = true) :
+    scanFile Gen.javascript (render p) = .ok ((treeReportNamed p.located.effective).map (·.2)) ∧
+    scanFile Gen.javascript (render p') = .ok (((treeReportNamed p.located.effective).filter
+      (fun x => decide (x.1.line ≠ l))).map (·.2)) :=
+  toggle_marker_fragment fragJs hc hw ha hcode hmark hind
+
+/-- **C17 toggle, TypeScript** (no assigned arrow functions) -/
+theorem toggle_marker_canon_ts {p p' : Prog PTok} {l : Nat}
+    (hc : p.bare.stripComments.CanonTs = true) (hw : p.bare.stripComments.wfCore = true)
+    (ha : p.bare.stripComments.noAdj = true)
+    (hcode : p'.located.stripComments = p.located.stripComments)
+    (hmark : ∀ x, x ∈ markedLines p'.located ↔ x ∈ markedLines p.located ∨ x = l)
+    (hind : p.located.effective.notNestedOn l = true) :
+    scanFile Gen.typescript (render p) = .ok ((treeReportNamed p.located.effective).map (·.2)) ∧
+    scanFile Gen.typescript (render p') = .ok (((treeReportNamed p.located.effective).filter
+      (fun x => decide (x.1.line ≠ l))).map (·.2)) :=
+  toggle_marker_fragment fragTs hc hw ha hcode hmark hind
+
+/-- **C04, Java** (no hypothesis about the matcher) -/
+theorem comments_blank_lines_invisible_canon_java {p p' : Prog PTok} {φ : Nat → Nat}
+    (hc : p.bare.stripComments.CanonJava = true)
+    (hw : p.bare.stripComments.wfCore = true) (ha : p.bare.stripComments.noAdj = true)
+    (hmove : p.located.stripComments.movedTo φ p'.located.stripComments = true)
+    (hφ : MonoOn φ (p.located.stripComments.flat.map (·.line)))
+    (hmark : ∀ t ∈ p.located.stripComments.nameToks,
+      (markedLines p'.located).contains (φ t.line) = (markedLines p.located).contains t.line) :
+    scanFile Gen.java (render p) = .ok (markedReport p) ∧
+    scanFile Gen.java (render p') = .ok (markedReport p') ∧
+    Forall2 (Measurement.movedBy φ) (markedReport p) (markedReport p') :=
+  comments_blank_lines_invisible_fragment fragJava hc hw ha hmove hφ hmark
+
+/-- **C04, JavaScript** (no assigned arrow functions) -/
+theorem comments_blank_lines_invisible_canon_js {p p' : Prog PTok} {φ : Nat → Nat}
+    (hc : p.bare.stripComments.CanonJs = true)
+    (hw : p.bare.stripComments.wfCore = true) (ha : p.bare.stripComments.noAdj = true)
+    (hmove : p.located.stripComments.movedTo φ p'.located.stripComments = true)
+    (hφ : MonoOn φ (p.located.stripComments.flat.map (·.line)))
+    (hmark : ∀ t ∈ p.located.stripComments.nameToks,
+      (markedLines p'.located).contains (φ t.line) = (markedLines p.located).contains t.line) :
+    scanFile Gen.javascript (render p) = .ok (markedReport p) ∧
+    scanFile Gen.javascript (render p') = .ok (markedReport p') ∧
+    Forall2 (Measurement.movedBy φ) (markedReport p) (markedReport p') :=
+  comments_blank_lines_invisible_fragment fragJs hc hw ha hmove hφ hmark
+
+/-- **C04, TypeScript** (no assigned arrow functions) -/
+theorem comments_blank_lines_invisible_canon_ts {p p' : Prog PTok} {φ : Nat → Nat}
+    (hc : p.bare.stripComments.CanonTs = true)
+    (hw : p.bare.stripComments.wfCore = true) (ha : p.bare.stripComments.noAdj = true)
+    (hmove : p.located.stripComments.movedTo φ p'.located.stripComments = true)
+    (hφ : MonoOn φ (p.located.stripComments.flat.map (·.line)))
+    (hmark : ∀ t ∈ p.located.stripComments.nameToks,
+      (markedLines p'.located).contains (φ t.line) = (markedLines p.located).contains t.line) :
+    scanFile Gen.typescript (render p) = .ok (markedReport p) ∧
+    scanFile Gen.typescript (render p') = .ok (markedReport p') ∧
+    Forall2 (Measurement.movedBy φ) (markedReport p) (markedReport p') :=
+  comments_blank_lines_invisible_fragment fragTs hc hw ha hmove hφ hmark
 
 /-- what `Forall2 (Measurement.movedBy φ)` says, position by position -/
 theorem moved_reports_iff {φ : Nat → Nat} {r r' : List Measurement} :
@@ -1042,6 +1497,157 @@ theorem java_scan : scanFile Gen.java (render javaMarks) = .ok [⟨[109], 2, 3, 
     java_conditions.2.2).trans (by decide +kernel)
 
 example : scanFile Gen.java (render javaMarks) = .ok [⟨[109], 2, 3, 4, 4, 3⟩] :=
+  scanFile_eval (by decide +kernel)
+
+/-! ### M5 on the examples: output-level C17, toggle and C04 for Java without matcher hypothesis -/
+
+/-- `reported_functions_canon` on `marksTree`: C++ reports the function nodes named on the unmarked
+lines 2, 7, 12, 19 (`g` on line 3 and `o` on line 11 are omitted); C reports `f`, `k`, `h`: `n` is
+hidden inside the unmarked `f`, `k` is revealed because the enclosing `o` is marked -/
+theorem marks_reported_names :
+    (expectedNames Gen.cpp marksTree.located).map (fun t => (t.val, t.line))
+      = [([102], 2), ([110], 7), ([107], 12), ([104], 19)] ∧
+    (expectedNames Gen.c marksTree.located).map (fun t => (t.val, t.line))
+      = [([102], 2), ([107], 12), ([104], 19)] := by decide +kernel
+
+example : scanFile Gen.cpp (render marksTree)
+      = .ok ((langReportNamed Gen.cpp marksTree.located.effective).map (·.2)) ∧
+    (langReportNamed Gen.cpp marksTree.located.effective).map (·.1)
+      = expectedNames Gen.cpp marksTree.located ∧
+    ∀ x ∈ langReportNamed Gen.cpp marksTree.located.effective, x.2.name = x.1.val :=
+  reported_functions_canon (L := Gen.cpp) (by simp [cFamily]) marks_conditions.1
+    marks_conditions.2.1 marks_conditions.2.2.1
+
+/-- `javaMarks` with an ordinary comment instead of the marker on line 5 -/
+def javaUnmarked : Prog PTok :=
+  .toks [pt 1 [99, 108, 97, 115, 115] 0 0, pt 2 [65] 0 5] <|
+  .group (pt 3 [123] 0 1) (pt 3 [125] 1 0)
+      (.fn (.toks [pt 2 [109] 1 2, pt 3 [40] 0 1, pt 3 [41] 0 1] <|
+          .nil) 0 [pt 1 [116, 104, 114, 111, 119, 115] 0 1, pt 5 [47, 42, 32, 99, 32, 42, 47] 0 1, pt 2 [69] 0 1]
+          (pt 3 [123] 0 1) (pt 3 [125] 1 2)
+          (.toks [pt 2 [120] 1 4, pt 3 [59] 0 1] <|
+          .nil) <|
+      .fn (.toks [pt 2 [107] 1 2, pt 3 [40] 0 1, pt 3 [41] 0 1] <|
+          .nil) 0 []
+          (pt 3 [123] 0 1) (pt 3 [125] 0 1)
+          (.toks [pt 2 [117] 0 1, pt 3 [59] 0 1] <|
+          .nil) <|
+      .toks [pt 5 [47, 47, 32, 120, 120, 120, 120] 0 3] <|
+      .nil) <|
+  .nil
+
+/-- the hypotheses of `toggle_marker_canon_java` for line 5 -/
+theorem javaUnmarked_hyps :
+    javaUnmarked.bare.stripComments.CanonJava = true ∧
+    javaUnmarked.bare.stripComments.wfCore = true ∧ javaUnmarked.bare.stripComments.noAdj = true ∧
+    javaMarks.located.stripComments.sameUpTo (fun a b => a == b)
+      javaUnmarked.located.stripComments = true ∧
+    markedLines javaUnmarked.located = [] ∧ markedLines javaMarks.located = [5] ∧
+    javaUnmarked.located.effective.notNestedOn 5 = true := by decide +kernel
+
+/-- **the Java toggle theorem applies**: without the marker `m` and `k` are reported, with it
+exactly the entry of `k` disappears - and the kernel evaluation of the model agrees -/
+theorem java_toggle :
+    scanFile Gen.java (render javaUnmarked)
+      = .ok [⟨[109], 2, 3, 4, 4, 3⟩, ⟨[107], 5, 3, 5, 16, 1⟩] ∧
+    scanFile Gen.java (render javaMarks) = .ok [⟨[109], 2, 3, 4, 4, 3⟩] := by
+  have h := toggle_marker_canon_java (p := javaUnmarked) (p' := javaMarks) (l := 5)
+    javaUnmarked_hyps.1 javaUnmarked_hyps.2.1 javaUnmarked_hyps.2.2.1
+    (eq_of_sameUpTo_beq javaUnmarked_hyps.2.2.2.1)
+    (by
+      intro x
+      rw [javaUnmarked_hyps.2.2.2.2.2.1, javaUnmarked_hyps.2.2.2.2.1]
+      simp)
+    javaUnmarked_hyps.2.2.2.2.2.2
+  refine ⟨h.1.trans ?_, h.2.trans ?_⟩ <;> decide +kernel
+
+example : scanFile Gen.java (render javaUnmarked)
+    = .ok [⟨[109], 2, 3, 4, 4, 3⟩, ⟨[107], 5, 3, 5, 16, 1⟩] := scanFile_eval (by decide +kernel)
+
+/-- `javaMarks` with a blank line inserted above `m` and the comment in the `throws` clause removed -/
+def javaMoved : Prog PTok :=
+  .toks [pt 1 [99, 108, 97, 115, 115] 0 0, pt 2 [65] 0 5] <|
+  .group (pt 3 [123] 0 1) (pt 3 [125] 1 0)
+      (.fn (.toks [pt 2 [109] 2 2, pt 3 [40] 0 1, pt 3 [41] 0 1] <|
+          .nil) 0 [pt 1 [116, 104, 114, 111, 119, 115] 0 1, pt 2 [69] 0 1]
+          (pt 3 [123] 0 1) (pt 3 [125] 1 2)
+          (.toks [pt 2 [120] 1 4, pt 3 [59] 0 1] <|
+          .nil) <|
+      .fn (.toks [pt 2 [107] 1 2, pt 3 [40] 0 1, pt 3 [41] 0 1] <|
+          .nil) 0 []
+          (pt 3 [123] 0 1) (pt 3 [125] 0 1)
+          (.toks [pt 2 [117] 0 1, pt 3 [59] 0 1] <|
+          .nil) <|
+      .toks [pt 5 [47, 47, 32, 110, 111, 99, 108] 0 3] <|
+      .nil) <|
+  .nil
+
+/-- the line shift: one line inserted above line 2 -/
+def javaShift (l : Nat) : Nat := if l ≤ 1 then l else l + 1
+
+/-- **the Java C04 theorem applies**: same names and lengths, lines shifted by one -/
+theorem java_moved :
+    scanFile Gen.java (render javaMoved) = .ok (markedReport javaMoved) ∧
+    Forall2 (Measurement.movedBy javaShift) (markedReport javaMarks) (markedReport javaMoved) ∧
+    markedReport javaMoved = [⟨[109], 3, 3, 5, 4, 3⟩] := by
+  have h := comments_blank_lines_invisible_canon_java (p := javaMarks) (p' := javaMoved)
+    (φ := javaShift) java_conditions.1 java_conditions.2.1 java_conditions.2.2
+    (by decide +kernel) (by decide +kernel) (by decide +kernel)
+  exact ⟨h.2.1, h.2.2, by decide +kernel⟩
+
+example : scanFile Gen.java (render javaMoved) = .ok [⟨[109], 3, 3, 5, 4, 3⟩] :=
+  scanFile_eval (by decide +kernel)
+
+/-! ### a marker IN FRONT of the name (it shifts the columns of the code behind it)
+
+```
+1  x ;                                     |  1  x ;
+2  f ( ) { a ; }                           |  2  /* nocl */ f ( ) { a ; }
+3  g ( ) { b ; }                           |  3  g ( ) { b ; }
+```
+-/
+def frontPlain : Prog PTok :=
+  .toks [pt 2 [120] 0 0, pt 3 [59] 0 1] <|
+  .fn (.toks [pt 2 [102] 1 0, pt 3 [40] 0 1, pt 3 [41] 0 1] .nil) 0 []
+      (pt 3 [123] 0 1) (pt 3 [125] 0 1) (.toks [pt 2 [97] 0 1, pt 3 [59] 0 1] .nil) <|
+  .fn (.toks [pt 2 [103] 1 0, pt 3 [40] 0 1, pt 3 [41] 0 1] .nil) 0 []
+      (pt 3 [123] 0 1) (pt 3 [125] 0 1) (.toks [pt 2 [98] 0 1, pt 3 [59] 0 1] .nil) <|
+  .nil
+
+def frontMarked : Prog PTok :=
+  .toks [pt 2 [120] 0 0, pt 3 [59] 0 1, pt 5 [47, 42, 32, 110, 111, 99, 108, 32, 42, 47] 1 0] <|
+  .fn (.toks [pt 2 [102] 0 10, pt 3 [40] 0 1, pt 3 [41] 0 1] .nil) 0 []
+      (pt 3 [123] 0 1) (pt 3 [125] 0 1) (.toks [pt 2 [97] 0 1, pt 3 [59] 0 1] .nil) <|
+  .fn (.toks [pt 2 [103] 1 0, pt 3 [40] 0 1, pt 3 [41] 0 1] .nil) 0 []
+      (pt 3 [123] 0 1) (pt 3 [125] 0 1) (.toks [pt 2 [98] 0 1, pt 3 [59] 0 1] .nil) <|
+  .nil
+
+/-- **`toggle_marker_moved_fragment` applies** (C++): the code tokens of line 2 stand in other columns
+in the marked file (`toggle_marker` does not apply: the comment-free located forests differ); the
+entry of `f` disappears, `g` keeps name, length and lines -/
+theorem front_marker :
+    frontMarked.located.stripComments.flat ≠ frontPlain.located.stripComments.flat ∧
+    scanFile Gen.cpp (render frontPlain)
+      = .ok [⟨[102], 2, 1, 2, 14, 1⟩, ⟨[103], 3, 1, 3, 14, 1⟩] ∧
+    ∃ r', scanFile Gen.cpp (render frontMarked) = .ok r' ∧
+      Forall2 (Measurement.movedBy id) [⟨[103], 3, 1, 3, 14, 1⟩] r' := by
+  obtain ⟨h1, r', h2, h3⟩ := toggle_marker_moved_fragment (fragC (L := Gen.cpp) (by simp [cFamily]))
+    (p := frontPlain) (p' := frontMarked) (l := 2) (by decide +kernel) (by decide +kernel)
+    (by decide +kernel) (by decide +kernel)
+    (by
+      intro x
+      have a : markedLines frontMarked.located = [2] := by decide +kernel
+      have b : markedLines frontPlain.located = [] := by decide +kernel
+      rw [a, b]; simp)
+    (by decide +kernel)
+  refine ⟨by decide +kernel, h1.trans (by decide +kernel), r', h2, ?_⟩
+  have hf : ((langReportNamed Gen.cpp frontPlain.located.effective).filter
+      (fun x => decide (x.1.line ≠ 2))).map (·.2) = [⟨[103], 3, 1, 3, 14, 1⟩] := by decide +kernel
+  rw [hf] at h3
+  exact h3
+
+/-- the kernel evaluation of the model agrees -/
+example : scanFile Gen.cpp (render frontMarked) = .ok [⟨[103], 3, 1, 3, 14, 1⟩] :=
   scanFile_eval (by decide +kernel)
 
 /-! ### a brace group directly after a SUPPRESSED function
